@@ -58,6 +58,10 @@ POSITIONS = {
     # name -> (template lines using {H} {V}, kind) kind: 'assert' raises on mismatch, 'select' falls through
     "let": (["let x_: {H} = {V}", "'ok'"], "assert"),
     "multi_let": (["let y_: Any, x_: {H} = 0, {V}", "'ok'"], "assert"),
+    "multi_let_wildcard": (["xs_ = [1, {V}, 3]", "let a_, _: {H}, c_ = xs_", "if a_ == 1 and c_ == 3 then 'ok' else 'shifted'"], "assert"),
+    "multi_let_named_wildcard": (["xs_ = (1, {V}, 3, 4)", "let a_, _w: {H}, c_, d_ = xs_", "if a_ == 1 and c_ == 3 and d_ == 4 then 'ok' else 'shifted'"], "assert"),
+    "nested_arg_wildcard": (["f_ = |(a_, _: {H}, c_)| if a_ == 1 and c_ == 3 then 'ok' else 'shifted'", "f_((1, {V}, 3))"], "assert"),
+    "for_arg_wildcard": (["r_ = 'none'", "for a_, _: {H}, c_ in ((1, {V}, 3),)", "  r_ = if a_ == 1 and c_ == 3 then 'ok' else 'shifted'", "r_"], "assert"),
     "for_arg": (["for x_: {H} in ({V},)", "  null", "'ok'"], "assert"),
     "fn_arg": (["f_ = |x_: {H}| 'ok'", "f_({V})"], "assert"),
     "fn_arg_default": (["f_ = |y_ = 0, x_: {H} = {V}| 'ok'", "f_()"], "assert"),
